@@ -3,6 +3,7 @@ package main
 import (
 	"go/ast"
 	"go/token"
+	"go/types"
 	"sort"
 	"strconv"
 	"strings"
@@ -513,6 +514,257 @@ func init() {
 			}
 			if n == 0 {
 				r.undecided("error tests", "?", "none found")
+			}
+		},
+	})
+}
+
+// flushedByCaller: writers that leave the flush to whoever called them.
+var flushedByCaller = map[string]string{
+	"(*Conn).writeData":        "flushData / sendPending flush once the chunk's frames are in the buffer",
+	"(*Conn).writeHeaderBlock": "writeRequest flushes after the block (and the first DATA) is in the buffer",
+}
+
+func init() {
+	register(&Rule{
+		Name: "client-writes-are-flushed", Props: []string{"C12", "C18", "C14", "C02"}, Engine: "SSA", Floor: 8,
+		Doc: "the client writes through a bufio.Writer, so a frame is only sent once the buffer is flushed: every client function that writes a frame reaches a Flush afterwards, and that Flush is not confined to the branch where the write's own error was found non-nil; the two writers that leave flushing to their caller are a table, and each of their callers is held to the same rule. A frame left in the buffer is a request, a SETTINGS acknowledgement or a WINDOW_UPDATE the server never sees",
+		Run: func(p *Prog, r *Out) {
+			n := 0
+			isWrite := func(c *ssa.CallCommon) bool {
+				name := p.calleeName(c)
+				if name == "(*FrameHeader).WriteTo" {
+					return true
+				}
+				_, ok := flushedByCaller[name]
+				return ok
+			}
+			for _, f := range p.allFuncs() {
+				if f.Pkg != p.SPkg {
+					continue
+				}
+				fn := p.fname(f)
+				if strings.HasPrefix(fn, "(*serverConn)") || strings.HasPrefix(fn, "(*FrameHeader)") {
+					continue // the server batches: rule server-writer-flushes
+				}
+				var writes, flushes []*ssa.Call
+				for _, b := range f.Blocks {
+					for _, in := range b.Instrs {
+						c, ok := in.(*ssa.Call)
+						if !ok {
+							continue
+						}
+						if isWrite(c.Common()) {
+							writes = append(writes, c)
+						}
+						if p.calleeName(c.Common()) == "(*bufio.Writer).Flush" {
+							flushes = append(flushes, c)
+						}
+					}
+				}
+				if len(writes) == 0 {
+					continue
+				}
+				n++
+				r.fn(fn)
+				key := fn + " flushes what it writes"
+				if why, ok := flushedByCaller[fn]; ok && len(flushes) == 0 {
+					r.ok(key, p.ipos(writes[0]), "left to its callers, which are checked: "+why)
+					continue
+				}
+				// errors that come from the writes
+				fromWrite := map[ssa.Value]bool{}
+				for _, w := range writes {
+					for _, u := range *w.Referrers() {
+						if ex, ok := u.(*ssa.Extract); ok && ex.Type().String() == "error" {
+							fromWrite[ex] = true
+						}
+					}
+					if w.Type().String() == "error" {
+						fromWrite[w] = true
+					}
+				}
+				for changed := true; changed; {
+					changed = false
+					for _, b := range f.Blocks {
+						for _, in := range b.Instrs {
+							switch x := in.(type) {
+							case *ssa.Phi:
+								if fromWrite[x] {
+									continue
+								}
+								for _, e := range x.Edges {
+									if fromWrite[e] {
+										fromWrite[x] = true
+										changed = true
+									}
+								}
+							case *ssa.Store:
+								if fromWrite[x.Val] {
+									if al, ok := x.Addr.(*ssa.Alloc); ok {
+										for _, u := range *al.Referrers() {
+											if ld, ok := u.(*ssa.UnOp); ok && !fromWrite[ld] {
+												fromWrite[ld] = true
+												changed = true
+											}
+										}
+									}
+								}
+							}
+						}
+					}
+				}
+				// blocks where such an error is known non-nil
+				var failed []*ssa.BasicBlock
+				for _, b := range f.Blocks {
+					if len(b.Instrs) == 0 {
+						continue
+					}
+					iff, ok := b.Instrs[len(b.Instrs)-1].(*ssa.If)
+					if !ok {
+						continue
+					}
+					bo, ok := iff.Cond.(*ssa.BinOp)
+					if !ok || (bo.Op != token.EQL && bo.Op != token.NEQ) || !(fromWrite[bo.X] || fromWrite[bo.Y]) {
+						continue
+					}
+					t := b.Succs[0]
+					if bo.Op == token.EQL {
+						t = b.Succs[1]
+					}
+					if len(t.Preds) == 1 {
+						failed = append(failed, t)
+					}
+				}
+				bad := ""
+				for _, w := range writes {
+					ok := false
+					for _, fl := range flushes {
+						if !reachesAfter(w, fl, nil) {
+							continue
+						}
+						confined := false
+						for _, fb := range failed {
+							if fb.Dominates(fl.Block()) {
+								confined = true
+							}
+						}
+						if !confined {
+							ok = true
+						}
+					}
+					if !ok {
+						bad = p.ipos(w)
+					}
+				}
+				r.check(bad == "", key, p.ipos(writes[0]), "each write reaches a Flush that is not confined to the write's failure branch", fn+" writes a frame (at "+bad+") into the connection's buffer and no Flush follows on the path where the write succeeded: the frame stays in the buffer")
+			}
+			if n == 0 {
+				r.undecided("client writers", "?", "none found")
+			}
+		},
+	})
+}
+
+func init() {
+	register(&Rule{
+		Name: "optional-callbacks-guarded", Props: []string{"C12", "C17"}, Engine: "SSA", Floor: 3,
+		Doc: "a contradiction rule over function-valued struct fields: a field that some code compares with nil is optional, so every call through it is dominated by the non-nil side of such a test on the same field. The callbacks (OnDisconnect, OnRTT, NetDial) are called from the connection's own goroutines, where a nil call is a panic nothing recovers",
+		Run: func(p *Prog, r *Out) {
+			type fieldLoad struct {
+				owner, field string
+			}
+			loadOf := func(v ssa.Value) (fieldLoad, ssa.Value, bool) {
+				ld, ok := v.(*ssa.UnOp)
+				if !ok || ld.Op != token.MUL {
+					return fieldLoad{}, nil, false
+				}
+				fa, ok := ld.X.(*ssa.FieldAddr)
+				if !ok {
+					return fieldLoad{}, nil, false
+				}
+				o, f := p.fieldAddrName(fa)
+				return fieldLoad{o, f}, fa.X, true
+			}
+			// which func fields are ever nil-tested, and the tests
+			optional := map[fieldLoad]bool{}
+			type test struct {
+				fl     fieldLoad
+				nonNil *ssa.BasicBlock
+				fn     *ssa.Function
+			}
+			var tests []test
+			for _, f := range p.allFuncs() {
+				if f.Pkg != p.SPkg {
+					continue
+				}
+				for _, b := range f.Blocks {
+					for _, in := range b.Instrs {
+						bo, ok := in.(*ssa.BinOp)
+						if !ok || (bo.Op != token.EQL && bo.Op != token.NEQ) {
+							continue
+						}
+						v, other := bo.X, bo.Y
+						if k, isK := v.(*ssa.Const); isK && k.IsNil() {
+							v, other = bo.Y, bo.X
+						}
+						if k, isK := other.(*ssa.Const); !isK || !k.IsNil() {
+							continue
+						}
+						if _, isSig := v.Type().Underlying().(*types.Signature); !isSig {
+							continue
+						}
+						fl, _, ok := loadOf(v)
+						if !ok {
+							continue
+						}
+						optional[fl] = true
+						for _, u := range *bo.Referrers() {
+							if iff, ok := u.(*ssa.If); ok {
+								t := iff.Block().Succs[0]
+								if bo.Op == token.EQL {
+									t = iff.Block().Succs[1]
+								}
+								if len(t.Preds) == 1 {
+									tests = append(tests, test{fl, t, f})
+								}
+							}
+						}
+					}
+				}
+			}
+			n := 0
+			for _, f := range p.allFuncs() {
+				if f.Pkg != p.SPkg {
+					continue
+				}
+				k := 0
+				for _, b := range f.Blocks {
+					for _, in := range b.Instrs {
+						ci, ok := in.(ssa.CallInstruction)
+						if !ok || ci.Common().IsInvoke() || ci.Common().StaticCallee() != nil {
+							continue
+						}
+						fl, _, ok := loadOf(ci.Common().Value)
+						if !ok || !optional[fl] {
+							continue
+						}
+						k++
+						n++
+						fn := p.closureLabel(f)
+						r.fn(p.fname(f))
+						guarded := false
+						for _, t := range tests {
+							if t.fn == f && t.fl == fl && t.nonNil.Dominates(in.Block()) {
+								guarded = true
+							}
+						}
+						r.check(guarded, fn+" calls "+fl.owner+"."+fl.field+" only when it is set ("+strconv.Itoa(k)+")", p.ipos(in), "dominated by the non-nil side of a test of that field", fn+" calls the optional callback "+fl.owner+"."+fl.field+" where no test has found it non-nil: with the callback unset this is a nil call, on a goroutine nothing recovers")
+					}
+				}
+			}
+			if n == 0 {
+				r.undecided("optional callbacks", "?", "no call through a nil-tested function field found")
 			}
 		},
 	})
